@@ -272,7 +272,7 @@ class ParseMCNPCell:
                 keywords['material'] = kw_list.pop()
         return keywords
 
-    SHORTHAND_RE = re.compile(r'^(?:[0-9]*(?:[jri]|i?log)|[-+0-9.e]*m)$')
+    SHORTHAND_RE = re.compile(r'^(?:[0-9]*(?:[jri]|i?log)|[-+0-9.ed]*m)$')
     # FILL followed by ranges, then numbers or shorthand, then a parenthesis
     # (one character class, so that the search stays linear in the length of
     # the array; no other keyword consists of the shorthand letters only)
